@@ -270,6 +270,30 @@ def _sc():
     return slopecovariance
 
 
+def layers_add_up(sc):
+    """the matrix of a layered atmosphere is the sum of the matrices of its layers - also when layers share an altitude (a two-
+    component ground layer with different outer scales), are listed top-down, or when there are five of them"""
+    bad = []
+    n = 4
+    yy, xx = np.indices((n, n))
+    ring = ((xx - 1.5) ** 2 + (yy - 1.5) ** 2 <= 4.1).astype(float)
+    m3 = np.ones((3, 3))
+    m3[0, 0] = 0
+
+    def build_(alts, r0s, l0s):
+        return np.asarray(sc.CovarianceMatrix(2, [ring, m3], 4.0, np.array([1.0, 4.0 / 3]), np.array([0.0, 90000.0]), np.array([[10.0, -6.0], [-8.0, 5.0]]),
+                                              np.array([500e-9, 589e-9]), len(alts), np.array(alts, float), np.array(r0s, float), np.array(l0s, float)
+                                              ).make_covariance_matrix(), float)
+    for label, alts, r0s, l0s in (("two-layers-at-one-altitude", [0.0, 0.0, 8000.0], [0.2, 0.3, 0.25], [4.0, 40.0, 25.0]),
+                                  ("equal-altitudes-high-up", [3000.0, 9000.0, 9000.0], [0.2, 0.3, 0.25], [30.0, 8.0, 60.0]),
+                                  ("five-layers-top-down", [12000.0, 9000.0, 5000.0, 1000.0, 0.0], [0.5, 0.4, 0.3, 0.25, 0.15], [20.0, 25.0, 30.0, 35.0, 40.0])):
+        whole = build_(alts, r0s, l0s)
+        parts = sum(build_([a], [r], [l]) for a, r, l in zip(alts, r0s, l0s))
+        if whole.shape != parts.shape or not np.all(np.isfinite(whole)) or np.abs(whole - parts).max() > 3e-6 * np.abs(parts).max() * len(alts):
+            bad.append(("covariance:layers-do-not-add-up:" + label, dict(max_rel=float(np.abs(whole - parts).max() / np.abs(parts).max()) if whole.shape == parts.shape else None)))
+    return bad
+
+
 def big_array_structure_function(sc):
     """structure_function_vk on 2^20 + ... separations at once (what one block of a sensor with more than a thousand sub-apertures
     hands over) against the independent evaluation, element by element"""
@@ -321,7 +345,9 @@ def run(run):
     with np.errstate(all="ignore"):
         for key, detail in big_array_structure_function(sc):
             run.violation(key, detail, dict(kind="bigsf"))
-    run.traces += n + 1
+        for key, detail in layers_add_up(sc):
+            run.violation(key, detail, dict(kind="layers"))
+    run.traces += n + 4
     run.aux.update(configurations=n, reconfigured_rebuilds=n_reconf, most_negative_eigenvalue_rel=mineig, trusted=["scipy.special.kv/gamma", "numpy.linalg.eigvalsh"])
     run.assumptions += [
         "positive semi-definiteness as an eigenvalue fact is an auxiliary float check; it is implied by Impl = Def (a Gram matrix)",
@@ -336,6 +362,11 @@ def replay(run, case):
     if case.get("kind") == "bigsf":
         with np.errstate(all="ignore"):
             for key, detail in big_array_structure_function(sc):
+                run.violation(key, detail, case)
+        return
+    if case.get("kind") == "layers":
+        with np.errstate(all="ignore"):
+            for key, detail in layers_add_up(sc):
                 run.violation(key, detail, case)
         return
     if case.get("kind") == "reconfigure":
